@@ -347,6 +347,43 @@ pub fn tour() -> Vec<Call> {
     calls
 }
 
+/// Look-alike texts through the text entry points, one after the other on one thread: filters and documents that
+/// differ only INSIDE a literal (a run of blanks, letter case).  Whatever a text entry point keeps between calls (a
+/// cache keyed by a normalised text) must not answer a later text with an earlier one's result: every handle is
+/// then USED (matched against records that tell the look-alikes apart; written back as text).
+pub fn lookalikes() -> Vec<Call> {
+    let mut calls: Vec<Call> = Vec::new();
+    let v = |k: usize| A::V(Some(k));
+    let mut add = |name: &str, args: Vec<A>| calls.push(Call::new(name, args));
+    add("haystack_value_from_zinc_string", vec![cs("{dis:\"Main AHU\" site}")]); // @0
+    add("haystack_value_from_zinc_string", vec![cs("{dis:\"Main  AHU\" site}")]); // @1
+    add("haystack_value_from_zinc_string", vec![cs("{dis:\"main ahu\" site}")]); // @2
+    add("haystack_value_from_json_string", vec![cs("{\"dis\": \"Main AHU\"}")]); // @3
+    add("haystack_value_from_json_string", vec![cs("{\"dis\": \"Main  AHU\"}")]); // @4
+    let texts = ["dis==\"Main AHU\"", "dis==\"Main  AHU\"", "dis == \"Main AHU\"", " dis==\"Main  AHU\" ", "dis==\"main ahu\"", "dis==\"Main AHU\" and site", "dis==\"Main  AHU\"  and  site"];
+    for t in texts {
+        add("haystack_filter_parse", vec![cs(t)]);
+    }
+    for f in 0..texts.len() {
+        for d in 0..5 {
+            add("haystack_filter_match_dict", vec![A::F(Some(f)), v(d)]);
+        }
+    }
+    for d in 0..5 {
+        add("haystack_value_to_zinc_string", vec![v(d)]);
+        add("haystack_value_to_json_string", vec![v(d)]);
+    }
+    // the same texts again (now everything has been seen once)
+    for t in texts {
+        add("haystack_filter_parse", vec![cs(t)]);
+    }
+    for f in texts.len()..2 * texts.len() {
+        add("haystack_filter_match_dict", vec![A::F(Some(f)), v(1)]);
+        add("haystack_filter_match_dict", vec![A::F(Some(f)), v(0)]);
+    }
+    calls
+}
+
 const KEYS: &[&str] = &["a", "b", "c", "dis", "id", "site", "é", "zz", "A", "a1", ""];
 const FILTERS: &[&str] = &[
     "a", "site", "not a", "a and b", "a or dis", "a == 1", "dis == \"x\"", "a < 5", "a >= 1m", "id == @r", "a->b",
@@ -863,6 +900,7 @@ pub fn random_history(rng: &mut Rng, len: usize) -> Vec<Call> {
 pub fn generate(ctx: &mut Ctx) {
     ctx.case("inventory", "-");
     ctx.case("tour", &show_history(&tour()));
+    ctx.case("hist", &show_history(&lookalikes()));
     let n = ctx.n(2000, 100_000);
     for _ in 0..n {
         let mut rng = ctx.rng.fork();
